@@ -3,6 +3,7 @@
 package hx
 
 import (
+	"strconv"
 	"bufio"
 	"encoding/hex"
 	"encoding/json"
@@ -255,6 +256,16 @@ func Arg(toks []string, key string) (string, bool) {
 		}
 	}
 	return "", false
+}
+
+// ArgI returns the integer value of key=<n>, or def.
+func ArgI(toks []string, key string, def int64) int64 {
+	if v, ok := Arg(toks, key); ok {
+		if n, err := strconv.ParseInt(v, 10, 64); err == nil {
+			return n
+		}
+	}
+	return def
 }
 
 func Hex(b []byte) string {
